@@ -95,6 +95,16 @@ CHECKS = {
        "(trace validation only). END-word recognition on the generated regexes is a bounded check.",
   technique="Rocq proof (structural induction on program trees over a stack machine; sort/filter specification) + differential on generated programs",
   design="4/C04"),
+ "C20": dict(
+  text="Coq theorems (C20/Props.v), each for every finite object graph (cyclic or not) and every start node: the guarded pointer walk behind "
+       "get_ancestors / get_overridden / is_linked_from (the guard in front of every link_obj delegation) and the USE-tree recursion with its "
+       "current-path cut finish with fuel N+1 (N objects), i.e. never hit the recursion limit; parent pointers built by the parser always point to an "
+       "earlier object for every file (so host walks need no guard). The walks are tied to the code by extracting the pointer graphs from the "
+       "implementation's objects and running the real methods against the model; the catalogue (8 cycle kinds x lengths x all identifiers x 8 "
+       "methods) must answer with results, quickly.",
+  note="Trusted: Coq kernel, vm_compute, graph extraction harness. The walks are modelled by their recursion skeleton. Time is observed, steps are proved.",
+  technique="Rocq proof (termination by a pigeonhole measure on duplicate-free visited lists; forest invariant of the scope machine) + graph-extraction differential + cycle catalogue",
+  design="4/C20"),
 }
 NOT_YET = "not yet built in this round; see DESIGN.md section 8 (build order)"
 
